@@ -2,30 +2,14 @@ package props
 
 import (
 	"os"
-	"sync"
 	"testing"
 
 	"verif/harness/gen"
 	"verif/harness/run"
 )
 
-var (
-	colMu sync.Mutex
-	cols  = map[string]*run.Collector{}
-)
-
 // collector returns the per-check statistics collector (flushed by TestMain).
-func collector(property, check string) *run.Collector {
-	colMu.Lock()
-	defer colMu.Unlock()
-	k := property + "/" + check
-	if c, ok := cols[k]; ok {
-		return c
-	}
-	c := run.NewCollector(property, check)
-	cols[k] = c
-	return c
-}
+func collector(property, check string) *run.Collector { return run.GetCollector(property, check) }
 
 func thorough() bool { return os.Getenv("VERIF_TIER") == "thorough" }
 
@@ -38,8 +22,13 @@ func docCfg() gen.DocCfg {
 
 func TestMain(m *testing.M) {
 	code := m.Run()
-	for _, c := range cols {
-		c.Flush()
-	}
+	run.FlushAll()
 	os.Exit(code)
+}
+
+func getenv(k, def string) string {
+	if v := os.Getenv(k); v != "" {
+		return v
+	}
+	return def
 }
